@@ -128,6 +128,19 @@ def flat(lit):
   return [lit]
 
 
+def ctor(lit):
+  """The literal in the form the pg.DNA constructor reads: a conditional chain is ONE flat tuple ((1, (1, 0)) -> (1, 1, 0));
+  the nested-tuple form is silently truncated by the constructor."""
+  if isinstance(lit, tuple) and len(lit) == 2 and isinstance(lit[1], tuple):
+    inner = ctor(lit[1])
+    return (ctor(lit[0]),) + (inner if isinstance(inner, tuple) else (inner,))
+  if isinstance(lit, tuple):
+    return tuple(ctor(x) for x in lit)
+  if isinstance(lit, list):
+    return [ctor(x) for x in lit]
+  return lit
+
+
 def dna_literal(dna):
   """The literal of a DNA read through its public structure (value / children)."""
   kids = [dna_literal(c) for c in dna.children]
